@@ -227,4 +227,4 @@ def extra_engine(tier, seed, work):
     """rule-based state machine over ONE SBC object: any sequence of (structure, parameter set) calls must give what a fresh
     object gives for the same arguments (vlib/stateful_sbc.py)"""
     from vlib import stateful_sbc
-    return stateful_sbc.campaign(ID, "sbc", seed, 8 if tier == "quick" else 80)
+    return stateful_sbc.campaign(ID, "sbc", seed, 5 if tier == "quick" else 80)
